@@ -147,6 +147,16 @@ pub trait CellT: Sized + Clone + Default + Ord + 'static {
     fn key(&self) -> u32 {
         self.origin() % 3
     }
+    // the `Copy`-only operations exist only for element types that are `Copy`; `false` = not available
+    fn copy_from_slice_on<R: toodee::CopyOps<Self>>(_r: &mut R, _src: &[Self]) -> bool {
+        false
+    }
+    fn copy_from_toodee_on<R: toodee::CopyOps<Self>, S: toodee::TooDeeOps<Self>>(_r: &mut R, _s: &S) -> bool {
+        false
+    }
+    fn copy_within_on<R: toodee::CopyOps<Self>>(_r: &mut R, _src: ((usize, usize), (usize, usize)), _d: (usize, usize)) -> bool {
+        false
+    }
 }
 
 impl CellT for Elem {
@@ -173,6 +183,18 @@ impl CellT for K32 {
     }
     fn origin(&self) -> u32 {
         self.0
+    }
+    fn copy_from_slice_on<R: toodee::CopyOps<Self>>(r: &mut R, src: &[Self]) -> bool {
+        r.copy_from_slice(src);
+        true
+    }
+    fn copy_from_toodee_on<R: toodee::CopyOps<Self>, S: toodee::TooDeeOps<Self>>(r: &mut R, s: &S) -> bool {
+        r.copy_from_toodee(s);
+        true
+    }
+    fn copy_within_on<R: toodee::CopyOps<Self>>(r: &mut R, src: ((usize, usize), (usize, usize)), d: (usize, usize)) -> bool {
+        r.copy_within(src, d);
+        true
     }
 }
 
